@@ -20,6 +20,7 @@ import MW.Lemmas.PendHistObs
 import MW.Lemmas.PendHistEx
 import MW.Lemmas.PendHistCredRun
 import MW.Lemmas.PendHistCredEx
+import MW.Lemmas.PendHistNotifyEx
 import MW.Lemmas.TxmgrCodecRec
 namespace MW.Props.C09
 open MW MW.Model.Ledger MW.Lemmas.LedgerPending
@@ -432,7 +433,8 @@ theorem residue_of_credit_relation (e : Spec.Pending.Env) (s : Store) (P : List 
     the specification's `pendingCredits`.  `HOKc` = `HOK` with the receive domain WITHOUT its residue clause (now a
     theorem) and — this is the partial part — with the credit relation after each DISCONNECT step as an explicit
     hypothesis: that the per-record loop of Rollback re-creates the records of the un-confirmed transactions (from the
-    mined credit table, whose values are C01's) is not proved; receive, connect and the purge of disconnect are. -/
+    mined credit table, whose values are C01's) was not proved in Round 5; receive, connect and the purge of disconnect
+    were.  Round 6 proves it: `credit_refines` / `C09_full_credit_relation` below need no such hypothesis. -/
 theorem credit_refines_partial (rank : TxId → Nat) (E : HEnv) (w : HW) (evs : List HEv) (H : HInvC rank E w)
     (hD : ∀ x ∈ worldsH E w evs, HOKc rank E x.1 x.2) :
     HInvC rank E (runH E w evs) ∧
@@ -587,14 +589,80 @@ theorem notify_extend_is_connect (E : HEnv) (w : HW) (b : Block) (hprev : b.prev
   | error e => simp [stepH, hf, bind, Except.bind]
   | ok r => simp [stepH, hf, bind, Except.bind, pure, Except.pure]
 
+open MW.Lemmas.PendHist MW.Lemmas.PendHist.Notify in
+/-- NOTIFY, the trace WITH HEIGHTS AND BLOCKS (Round 6; structural, no hypothesis): a successful notification is `n`
+    `disconnectBlock` calls at the heights `v.best.height, v.best.height - 1, …` followed by the `filterBlock` calls on the
+    blocks `bs`, all with the ready set read at the fork point -/
+theorem notify_trace_heights (c : Ctx) (s s' : Store) (v v' : Vol) (b : Block)
+    (h : processBlock c s v b = (s', v', true)) :
+    ∃ sm n bs, DReachFrom c v.best.height s sm n ∧ CReachL c (readyWallets sm c.wallets) sm s' bs :=
+  processBlock_trace_h c s s' v v' b h
+
+open MW.Lemmas.PendHist MW.Lemmas.PendHist.Notify in
+/-- NOTIFY, the trace IS A RUN OF `stepH` (Round 6): in a world satisfying `HInv` whose follower's best block is the tip of
+    the wallet's chain (`v.best.height + 1` = length of the chain; C01's `processBlock_reaches` keeps `v.best = tipMeta`),
+    such a trace is the run of the typed events  n × disconnect ++ connect bs  — every disconnect IS `stepH .disconnect`
+    (the wallet's tip), every connect IS `stepH (.connect b)` (same ready set) — provided these events are inside the
+    domain `HOK` of `pending_refines`; `HInv` holds after it -/
+theorem notify_trace_is_run (rank : TxId → Nat) (E : HEnv) (w : HW) (H : HInv rank E w)
+    (hbest : w.v.best.height + 1 = w.sp.chain.length) (sm s' : Store) (n : Nat) (bs : List Block)
+    (hd : DReachFrom (E.ctx w.node) w.v.best.height w.s sm n)
+    (hc : CReachL (E.ctx w.node) (readyWallets sm E.wallets) sm s' bs)
+    (hD : ∀ x ∈ worldsH E w (notifyEvs n bs), HOK rank E x.1 x.2) :
+    (runH E w (notifyEvs n bs)).s = s' ∧ HInv rank E (runH E w (notifyEvs n bs)) :=
+  trace_run w H hbest hd hc hD
+
+open MW.Lemmas.PendHist MW.Lemmas.PendHist.Notify in
+/-- … hence A SUCCESSFUL NOTIFICATION (direct extension or reorganisation) IS A RUN OF `stepH`: it determines `n` and `bs`
+    such that, whenever the events  n × disconnect ++ connect bs  are inside the domain, the store `processBlock`
+    returns is the store of that run; so `pending_refines` / `credit_refines` speak about the function the driver executes
+    (the MODEL side of `notify`; the specification side of that run is the block-by-block composition of
+    `onChainMoved`, see `C09_full_notify_refinement` for what stays open) -/
+theorem notify_is_run (rank : TxId → Nat) (E : HEnv) (w : HW) (H : HInv rank E w)
+    (hbest : w.v.best.height + 1 = w.sp.chain.length) (b : Block) (s' : Store) (v' : Vol)
+    (h : processBlock (E.ctx w.node) w.s w.v b = (s', v', true)) :
+    ∃ n bs, (∀ x ∈ worldsH E w (notifyEvs n bs), HOK rank E x.1 x.2) →
+      (runH E w (notifyEvs n bs)).s = s' ∧ HInv rank E (runH E w (notifyEvs n bs)) :=
+  notify_run w H hbest b s' v' h
+
+open MW.Lemmas.PendHist MW.Lemmas.PendHist.Notify MW.Lemmas.PendHist.Cred in
+/-- … and with the credit relation: `HInvC` before the notification gives `HInvC` after it -/
+theorem notify_is_run_credits (rank : TxId → Nat) (E : HEnv) (w : HW) (H : HInvC rank E w)
+    (hbest : w.v.best.height + 1 = w.sp.chain.length) (b : Block) (s' : Store) (v' : Vol)
+    (h : processBlock (E.ctx w.node) w.s w.v b = (s', v', true)) :
+    ∃ n bs, (∀ x ∈ worldsH E w (notifyEvs n bs), HOK rank E x.1 x.2) →
+      (runH E w (notifyEvs n bs)).s = s' ∧ HInvC rank E (runH E w (notifyEvs n bs)) :=
+  notify_run_cred w H hbest b s' v' h
+
+open MW.Lemmas.PendHist MW.Lemmas.PendHist.Notify MW.Lemmas.PendHist.Cred in
+/-- non-vacuity, a REORGANISING notification: wallet chain G-B1-B2 (T1 confirmed in B2, T2 pending), follower's best block
+    B2, node on G-B1-B2x, notify B2x.  The world satisfies `HInvC` and the best-block hypothesis, the notification
+    succeeds, its trace is one disconnect at height 2 and the connect of B2x, both events are inside the domain, and the
+    run ends in the store of the trace = the store `processBlock` returns (T1 and T2 pending, T1's credit back) -/
+example : HInvC exRankH exE exV ∧ exV.v.best.height + 1 = exV.sp.chain.length ∧
+    (processBlock (exE.ctx exV.node) exV.s exV.v exB2x).2.2 = true := ⟨exHInvCV, exBestV, exNotifyOk⟩
+open MW.Lemmas.PendHist MW.Lemmas.PendHist.Notify in
+example : DReachFrom (exE.ctx exV.node) exV.v.best.height exV.s exS6 1 ∧
+    CReachL (exE.ctx exV.node) (readyWallets exS6 exE.wallets) exS6 exS7 [exB2x] ∧
+    (∀ x ∈ worldsH exE exV (notifyEvs 1 [exB2x]), HOK exRankH exE x.1 x.2) := ⟨exTraceD, exTraceC, exDomainV⟩
+open MW.Lemmas.PendHist MW.Lemmas.PendHist.Notify in
+example :
+    ((processBlock (exE.ctx exV.node) exV.s exV.v exB2x).1.pending.map (·.1),
+     (runH exE exV (notifyEvs 1 [exB2x])).s.pending.map (·.1),
+     (runH exE exV (notifyEvs 1 [exB2x])).sp.pend.map (·.id),
+     (runH exE exV (notifyEvs 1 [exB2x])).s.pendCred.map (fun e => (e.1, e.2.amt))) =
+    (["T1", "T2"], ["T1", "T2"], ["T2", "T1"], [(("T1", 0), 10)]) := exRunV_obs
+
 /-- STILL OPEN (1): for a reorganising notification the driver's `notify` applies ONE `onChainMoved` from the old to the
     new chain, the model (and `pending_refines`) move block by block (`notify_is_steps`).  The statement that the one-shot
     settle has the same MEMBERS as the composition of the single-block moves is not proved.  (Round 4 stated it with `=`
     on lists; that form is not the right one: the one-shot form appends the un-confirmed transactions of the disconnected
     blocks in block order, the composition in reverse block order — every observation sorts.)  It is FALSE for a stale
     notification while a pending transaction conflicts with the wallet's lagging chain (notes/C09.md, Rounds 4 and 5).
-    Also open: that the disconnect steps of `notify_is_steps` are at the wallet's tip (`stepH .disconnect`) — needs
-    `v.best` = tip of the wallet's chain in the invariant (C01's `processBlock_reaches` has it). -/
+    Round 6 closed the other half: the disconnect steps of `notify_is_steps` ARE at the wallet's tip (`stepH .disconnect`)
+    and the notification's store is the store of the run of `stepH` (`notify_is_run`, with `v.best` = tip of the wallet's
+    chain as a hypothesis on the world; C01's `processBlock_reaches` maintains it).  What stays open is ONLY this
+    specification-side equation (one-shot settle = composition of the single-block settles, members). -/
 def C09_full_notify_refinement (Domain : Spec.Pending.Env → List Block → List Block → List Tx → Prop) : Prop :=
   ∀ e c0 (old new : List Block) P, Domain e (c0 ++ old) (c0 ++ new) P →
     ∀ t, t ∈ Spec.Pending.onChainMoved e (c0 ++ old) (c0 ++ new) P ↔
